@@ -1,13 +1,16 @@
 ---- MODULE zz_bench ----
 EXTENDS FormatSpec
+C1 == CHOOSE c \in CallCases : c.fn = "str"
+C2 == CHOOSE c \in CallCases : c.fn = "format1" /\ c.s = <<48, 53, 120>>
+O1 == {o \in CallOps : InDomain(o)}
 ASSUME PrintT(<<"start", JavaTime>>)
-ASSUME PrintT(<<"cands", Cardinality(IntCands), JavaTime>>)
-ASSUME PrintT(<<"fmt", Cardinality({RefFValue(v, 0, <<48, 53, 120>>) : v \in IntCands}), JavaTime>>)
-ASSUME PrintT(<<"str", Cardinality({Str(v) : v \in IntCands}), JavaTime>>)
-ASSUME PrintT(<<"str2", Cardinality({IntStr(v) : v \in IntCands}), JavaTime>>)
-ASSUME PrintT(<<"digs10", Cardinality({DigitsOf(v.mag, 10) : v \in IntCands}), JavaTime>>)
-ASSUME PrintT(<<"digs16", Cardinality({DigitsOf(v.mag, 16) : v \in IntCands}), JavaTime>>)
-ASSUME PrintT(<<"digs2", Cardinality({DigitsOf(v.mag, 2) : v \in IntCands}), JavaTime>>)
-ASSUME PrintT(<<"fmtd", Cardinality({RefFValue(v, 0, <<48, 53, 100>>) : v \in IntCands}), JavaTime>>)
+ASSUME PrintT(<<"ops", Cardinality(O1), JavaTime>>)
+ASSUME PrintT(<<"seq", Len(SX!SetToSeq(O1)), JavaTime>>)
+ASSUME PrintT(<<"ref1", Cardinality({RefOf(C1, o) : o \in O1}), JavaTime>>)
+ASSUME PrintT(<<"ref2", Cardinality({RefOf(C2, o) : o \in O1}), JavaTime>>)
+ASSUME PrintT(<<"ref2again", Cardinality({RefOf(C2, o) : o \in O1}), JavaTime>>)
+ASSUME PrintT(<<"row", Len([i \in 1..Len(SX!SetToSeq(O1)) |-> RefOf(C2, SX!SetToSeq(O1)[i])] \o <<>>), JavaTime>>)
+ASSUME PrintT(<<"row2", LET os == SX!SetToSeq(O1) IN Len([i \in 1..Len(os) |-> RefOf(C2, os[i])] \o <<>>), JavaTime>>)
+ASSUME PrintT(<<"json", Len(ToJson([i \in 1..Len(SX!SetToSeq(O1)) |-> OpJson(SX!SetToSeq(O1)[i])])), JavaTime>>)
 ASSUME PrintT(<<"end", JavaTime>>)
 ====
